@@ -40,6 +40,20 @@ META = {
 DICT_UNITS = ["varintDict.c", "varintTagged.c", "varintExternal.c"]
 
 
+def dict_big_queries(tier):
+    """semi-concrete: 257 literal dictionary entries (index width 2), symbolic 9-byte count varint and index tail"""
+    qs = []
+    units = ["varintDict.c", "varintTagged.c", "varintExternal.c"]
+    for into, nm in ((0, "decode"), (1, "into")):
+        for tail in ((4,) if tier == "quick" else (0, 1, 4, 6)):
+            qs.append(Query("dict-big257-%s-tail%d" % (nm, tail), "bounded/dict_big.c", units, defs={"INTO": into, "TAIL": tail}, checks="mem",
+                            unwind=280, unwindset={}, unwind_fn={"varintDictDecode": [["i < dictSize", 259], ["i < count", 8], ["", 9]],
+                                                                 "varintDictDecodeInto": [["i < dictSize", 259], ["i < count", 8], ["", 9]],
+                                                                 "dictGetBounded": 9, "varintTaggedGet": 9},
+                            timeout=900, weight=6, extra=["--max-field-sensitivity-array-size", "300"]))
+    return qs
+
+
 def dict_queries(tier):
     qs = []
     quick = tier == "quick"
@@ -217,4 +231,4 @@ def tagged_queries(tier):
 
 
 def queries(tier):
-    return dict_queries(tier) + elias_queries(tier) + rle_queries(tier) + bitmap_queries(tier) + tagged_queries(tier)
+    return dict_queries(tier) + dict_big_queries(tier) + elias_queries(tier) + rle_queries(tier) + bitmap_queries(tier) + tagged_queries(tier)
